@@ -346,26 +346,27 @@ Theorem C02_old_dispatcher_reused_out_payload_refuted :
 Proof. exact ReusedOutputs.dispatch_old_refuted. Qed.
 Print Assumptions C02_old_dispatcher_reused_out_payload_refuted.
 
-(* NBX WITH ONE ITEM PER RECEIVER in the semantics with polls (cf. C01_nbx_every_schedule_partial; PARTIAL in the same sense: final states and
-   "no rank is ever blocked" and "some continuation reaches a final state or the model's fuel mark" are proved for every schedule; fair termination is missing): in every
-   final state rank r has returned result o (items of o) with pay q r at the position of sender q, o a permutation of the transposed list
-   (equal to it if sorted); every channel is empty and every barrier posted *)
+(* NBX WITH ONE ITEM PER RECEIVER in the semantics with polls MPI/SemPoll.v (cf. C01_nbx_every_schedule, C01_nbx_fair_termination): for every
+   run of n steps with n + nbx_bound P R < fuel: (a) a final state has on rank r the result o (items of o) with pay q r at the position of
+   sender q, o a permutation of the transposed list (equal to it if sorted), every channel empty and every barrier posted; (b) no rank is
+   blocked; (c) a final state is reachable by at most nbx_bound further steps; and every run of >= nbx_rounds P R fair segments ends final *)
 From ScV Require MPI.SemPoll C01.NbxSched.
-Theorem C02_nbx_every_schedule_partial : forall P (R : Z -> list Z) (pay : Z -> Z -> payload) (sorted : bool) (fuel : nat),
+Theorem C02_nbx_every_schedule : forall P (R : Z -> list Z) (pay : Z -> Z -> payload) (sorted : bool) (fuel : nat),
   (forall f, 0 <= f < P -> ssorted (fun x => x) (R f) /\ forall t, In t (R f) -> 0 <= t < P) ->
   forall n s, SemPoll.run_p P NbxSched.nbx_poll NbxSched.nbx_stags n (NbxSched.nbx_sys P R true pay sorted fuel) s ->
+  (n + NbxSched.nbx_bound P R < fuel)%nat ->
     (SemPoll.pfinal s ->
        (forall r, 0 <= r < P -> exists o, Permutation o (transpose P R r) /\ (sorted = true -> o = transpose P R r) /\
                                          SemPoll.ppr s r = Ret (result o (map (fun q => pay q r) o))) /\
        (forall a b t, SemPoll.pch s a b t = []) /\ (forall r, 0 <= r < P -> SemPoll.pbar s r = true)) /\
-    (forall r, 0 <= r < P -> (exists o, SemPoll.ppr s r = Ret o) \/ NbxSched.at_fuel_mark s r \/
+    (forall r, 0 <= r < P -> (exists o, SemPoll.ppr s r = Ret o) \/
                              exists s', SemPoll.step_p P NbxSched.nbx_poll NbxSched.nbx_stags s r s') /\
-    (exists m s', SemPoll.run_p P NbxSched.nbx_poll NbxSched.nbx_stags m s s' /\
-                  (SemPoll.pfinal s' \/ exists r, 0 <= r < P /\ NbxSched.at_fuel_mark s' r)).
-Proof.
-  intros P R pay sorted fuel HR n s Hr. split; [|split].
-  - exact (NbxSched.nbx_final P R true pay sorted fuel HR n s Hr).
-  - exact (NbxSched.nbx_never_blocked P R true pay sorted fuel HR n s Hr).
-  - exact (NbxSched.nbx_no_endless_polling P R true pay sorted fuel HR n s Hr).
-Qed.
-Print Assumptions C02_nbx_every_schedule_partial.
+    (exists m s', SemPoll.run_p P NbxSched.nbx_poll NbxSched.nbx_stags m s s' /\ (m <= NbxSched.nbx_bound P R)%nat /\ SemPoll.pfinal s').
+Proof. intros P R pay sorted fuel HR. exact (NbxSched.nbx_every_schedule P R true pay sorted fuel HR). Qed.
+Print Assumptions C02_nbx_every_schedule.
+Theorem C02_nbx_fair_termination : forall P (R : Z -> list Z) (pay : Z -> Z -> payload) (sorted : bool) (fuel : nat),
+  (forall f, 0 <= f < P -> ssorted (fun x => x) (R f) /\ forall t, In t (R f) -> 0 <= t < P) ->
+  forall k s, NbxSched.fair_segs P k (NbxSched.nbx_sys P R true pay sorted fuel) s ->
+  (NbxSched.nbx_rounds P R <= k)%nat -> SemPoll.pfinal s.
+Proof. intros P R pay sorted fuel HR. exact (NbxSched.nbx_fair_termination P R true pay sorted fuel HR). Qed.
+Print Assumptions C02_nbx_fair_termination.
